@@ -76,6 +76,7 @@ from isla.type_defs import Grammar, Path
 from isla.z3_helpers import (
     evaluate_z3_expression,
     DomainError,
+    UnspecifiedValueError,
     is_valid,
     z3_and,
     z3_or,
@@ -723,6 +724,10 @@ def evaluate_smt_formula(
                     else translation[1]
                 )
             )
+        except UnspecifiedValueError:
+            # E.g., division by zero: the formula might not depend on the
+            # unspecified value. Leave it to Z3.
+            return fallback(None)
         except DomainError:
             return Some(ThreeValuedTruth.false())
 
@@ -746,6 +751,8 @@ def evaluate_smt_formula(
     try:
         # Ground (sub-)expressions are evaluated eagerly during the translation.
         translation_result = evaluate_z3_expression(z3_formula)
+    except UnspecifiedValueError:
+        return fallback(None)
     except DomainError:
         return Some(ThreeValuedTruth.false())
 
